@@ -11,7 +11,7 @@ from mc.common import HarnessError, Stats, pmap, safe, scratch_dir, rm_scratch
 
 PROPERTY = 'C16'
 LEVEL = 'exploration'
-RULE = ('every table of 1..3 columns x 1 row over the cell alphabet {"", a, " ", " a ", "a,b", \'"\', \'a"b\', a|b, ü, 1:2} rendered (a) by csv.writer '
+RULE = ('every table of 1..3 columns x 1 row over the cell alphabet {"", a, " ", " a ", "a,b", \'"\', \'a"b\', a|b, ü, C:\\t\\n (backslashes)} rendered (a) by csv.writer '
         '(QUOTE_MINIMAL / QUOTE_ALL, \\n / \\r\\n) for csv-raw and ob-csv, (b) tab-joined for ob-raw-dump, and parsed by generic_line_parser; '
         '(c) VW lines: every subset and order of 3 namespaces (+ an undeclared one), 0..3 prefixed tokens each, label with/without weight and tag, '
         'surplus spaces; (d) every namespace-map file of <= 3 lines over 3 ids x 4 type spellings; (e) the field-count test of the streaming '
@@ -19,8 +19,8 @@ RULE = ('every table of 1..3 columns x 1 row over the cell alphabet {"", a, " ",
 ASSUMPTIONS = ['csv.writer is the trusted renderer of well-formed CSV', 'cells contain no line breaks and (for TSV) no tab, VW tokens contain no space, "|" or "-"',
                'VW: for tokens after the first both readings of "without their two-character prefix" are accepted (verbatim or stripped)']
 
-CELLS = ['', 'a', ' ', ' a ', 'a,b', '"', 'a"b', 'a|b', 'ü', '1:2']
-TSV_CELLS = ['', 'a', ' ', ' a ', 'a,b', '"', 'a"b', 'a|b', 'ü', '1:2']
+CELLS = ['', 'a', ' ', ' a ', 'a,b', '"', 'a"b', 'a|b', 'ü', 'C:\\t\\n']   # the last cell holds backslashes (no escape processing may happen)
+TSV_CELLS = ['', 'a', ' ', ' a ', 'a,b', '"', 'a"b', 'a|b', 'ü', 'C:\\t\\n']   # the last cell holds backslashes (no escape processing may happen)
 
 
 def glp():
